@@ -33,6 +33,8 @@ Scen(i) ==
       [] i = 6 -> [wt |-> TRUE,  CL |-> 1, RL |-> 3, WL |-> 1, DL |-> 2, gaps |-> {0, 1, 2}]
       [] i = 7 -> [wt |-> FALSE, CL |-> 0, RL |-> 2, WL |-> 2, DL |-> 1, gaps |-> {0, 1}]
       [] i = 8 -> [wt |-> TRUE,  CL |-> 0, RL |-> 2, WL |-> 2, DL |-> 1, gaps |-> {0, 1}]
+      \* 9: the window of two overlapping write-through puts (landing at 3 and 4), a removal and a fetch of 1 tick
+      [] i = 9 -> [wt |-> TRUE,  CL |-> 1, RL |-> 1, WL |-> 3, DL |-> 3, gaps |-> {0, 1}]
 Keys == 1..K
 Procs == 1..NP
 FIN == NP + 1
